@@ -23,6 +23,7 @@ type PartialFamily struct {
 	Prop      string
 	RemMode   string // "" every subset | "all" | "none"
 	SetLimit  int    // max size of verify/ingest/prune sets (0 = unlimited)
+	Collect   string // when set, violations of this property are collected instead of Prop's
 }
 
 type partFrame struct {
@@ -367,7 +368,11 @@ func sortedKeys(m map[int]bool) []int {
 
 func (f *PartialFamily) Step(n *Node, op Op) StepResult {
 	hist := append(append([]Op(nil), n.Hist...), op)
-	x := NewExec(f.Prop, func() Case { return mkCase("partial", partPayload{Fam: *f, Hist: hist}) })
+	xp := f.Prop
+	if f.Collect != "" {
+		xp = f.Collect
+	}
+	x := NewExec(xp, func() Case { return mkCase("partial", partPayload{Fam: *f, Hist: hist}) })
 	m, md, ok := f.run(x, hist)
 	res := StepResult{}
 	if ok {
